@@ -1135,20 +1135,24 @@ func (app *App) init() *App {
 // the app, which if not set is the DefaultErrorHandler.
 func (app *App) ErrorHandler(ctx Ctx, err error) error {
 	var (
-		mountedErrHandler  ErrorHandler
-		mountedPrefixParts int
+		mountedErrHandler ErrorHandler
+		mountedPrefixLen  int
 	)
 
+	path := ctx.Path()
 	for prefix, subApp := range app.mountFields.appList {
-		if prefix != "" && strings.HasPrefix(ctx.Path(), prefix) {
-			parts := len(strings.Split(prefix, "/"))
-			if mountedPrefixParts <= parts {
-				if subApp.configured.ErrorHandler != nil {
-					mountedErrHandler = subApp.config.ErrorHandler
-				}
-
-				mountedPrefixParts = parts
-			}
+		// only sub-apps with their own handler compete; the prefix has to end on a segment
+		// boundary of the path, so the innermost one is unique whatever the map order
+		if prefix == "" || subApp.configured.ErrorHandler == nil || !strings.HasPrefix(path, prefix) {
+			continue
+		}
+		if len(path) > len(prefix) && path[len(prefix)] != '/' && prefix[len(prefix)-1] != '/' {
+			continue
+		}
+		// all candidates are prefixes of the same path: the longest one is the innermost
+		if mountedPrefixLen < len(prefix) {
+			mountedErrHandler = subApp.config.ErrorHandler
+			mountedPrefixLen = len(prefix)
 		}
 	}
 
